@@ -101,13 +101,20 @@ class Step(Harness):
         bo, blen, cp, k, L, T = (z3.Int(x) for x in ("bo", "blen", "cp", "k", "L", "T"))
         ctx.assume(z3.And(bo >= 0, blen >= 0, cp >= 0, cp <= blen, k >= 0, k <= 2 ** 31, L >= 1, L <= 65536, T >= 0, bo + blen <= T, T <= 2 ** 40))
         n = bo + cp
-        case = ctx.choose("case", 2)         # 0: a complete next record exists; 1: the stream ends exactly here
+        # 0: a complete next record exists; 1: the stream ends exactly here; with params["tail"] (C10: arbitrary finite sources) also
+        # 2: what is left cannot hold prefix + header; 3: the header is there but the body it declares is cut short
+        case = ctx.choose("case", 4 if p.get("tail") else 2)
         o = n + k
         if case == 0:
             ctx.assume(lia.sel(o + 4) * 256 + lia.sel(o + 5) == L - 1)
             ctx.assume(o + 6 + L <= T)
-        else:
+        elif case == 1:
             ctx.assume(n == T)
+        elif case == 2:
+            ctx.assume(z3.And(n < T, o + 6 > T))
+        else:
+            ctx.assume(lia.sel(o + 4) * 256 + lia.sel(o + 5) == L - 1)
+            ctx.assume(z3.And(o + 6 <= T, o + 6 + L > T))
         r = None
         if kind == "bytes":
             ctx.assume(bo + blen == T)
@@ -121,7 +128,7 @@ class Step(Harness):
             ctx.assume(z3.Or(r == -1, z3.And(r >= 1, r < 2 ** 31)))
             rsize = lia.LInt(r)
         else:
-            src = lia.SymSocket(T, R, closed=False)
+            src = lia.SymSocket(T, R, closed=bool(p.get("closed")))
             src._posn = bo + blen
             reader, total = src.recv, None
             r = z3.Int("r")
@@ -137,10 +144,13 @@ class Step(Harness):
         except Exception as e:     # noqa: BLE001 - library outcome
             outcome, value, S2 = "exc:" + type(e).__name__, None, None
         obl = []
-        if case == 1:
-            # nothing left: sized sources stop (also an empty input), a socket whose peer stays open blocks
-            obl.append(("exhausted source: stop (file / bytes) or block (socket), nothing yielded", outcome == ("block" if kind == "socket" else "break")))
-            return result(f"end:{outcome}", obl, observe={"outcome": outcome}, inputs={})
+        if case >= 1:
+            # nothing (or not enough for one more complete packet) left: sized sources and a socket closed by its peer stop, a socket whose
+            # peer stays open blocks; nothing is yielded and no error escapes
+            want = "block" if kind == "socket" and not p.get("closed") else "break"
+            what = {1: "exhausted source", 2: "remainder shorter than prefix + header", 3: "declared body cut short"}[case]
+            obl.append((f"{what}: the generator stops ({want}), nothing yielded, no error (outcome {outcome})", outcome == want))
+            return result(f"end{case}:{outcome}" if case > 1 else f"end:{outcome}", obl, observe={"outcome": outcome}, inputs={})
         ok = outcome == "yield" and isinstance(value, self.SymRaw)
         obl.append((f"a complete next record is yielded (outcome {outcome})", ok))
         if ok:
@@ -206,6 +216,13 @@ def make(job):
     h.packets, h.SymRaw = packets, SymRaw
     h.prologue, h.step = lift(packets)
     return h
+
+
+def tail_jobs(tier):
+    """C10: from any loop-head state satisfying Inv, an insufficient remainder stops the generator (bytes, file, socket closed by its peer)"""
+    R = 3 if tier == "quick" else 5
+    return [{"name": f"induct-tail-{kind}", "h": "induct-step", "params": {"kind": kind, "R": R, "tail": True, "closed": True}, "split": 8, "chunk": 20, "max_paths": 60000,
+             "must_reach": ["step:yield", "end:break", "end2:break", "end3:break"]} for kind in ("bytes", "file", "socket")]
 
 
 def jobs(tier):
